@@ -12,9 +12,12 @@ pair stack and the seen set (stacked blocks are seen, each at most once, not yet
 position witness; expanded blocks have all successors seen; seen blocks are reachable; the start block stays at the bottom) gives:
 each block is yielded at most once, only reachable blocks, StopIteration only when yielded = seen = a successor-closed set
 containing the start block (hence exactly the reachable set), the start block last.  Termination is not proved.
-Dominance half: decided by the exhaustive bounded stand-in (all CFGs up to a bound) against the path definitions; the table readers
-(dominates / strictly_dominates / _strictly_dominates_block) are under discharged contracts, the set-of-sets fixpoint of
-DominanceInfo.__init__ is NOT proved.
+Dominance half: the table readers (dominates / strictly_dominates / _strictly_dominates_block) are under discharged contracts, and so is
+DominanceInfo.__init__: for regions of ANY size, when the fixpoint loop exits the table has exactly the region's blocks as keys, the entry block
+is dominated only by itself and EVERY other block satisfies Dom(b) = {b} U (intersection of Dom(p) over its predecessors, or all blocks if it has
+none) - the predecessor sets being proved to be exactly the edge relation read from the last ops.  That this solution is the GREATEST one (which
+is what makes it the dominator relation: sets start full and only shrink) is not proved; the exhaustive bounded stand-in (all CFGs up to a bound)
+compares the answers with the path definitions.
 """
 
 from __future__ import annotations
@@ -24,7 +27,7 @@ import os
 import z3
 
 from contracts import C24_native as N24
-from contracts.common import A, C, forall
+from contracts.common import A, AX, C, forall
 from pyvc.spec import Builtin, Inline, Spec
 from pyvc.values import Clause, VBool, VInt, VRef, VTuple, Vocab
 
@@ -324,10 +327,18 @@ IDXR = z3.Function("index_of_block_in_region", I, I, I)
 SUCCW = z3.Function("successor_index_witness", I, I, I)  # (p, b): a position of b among the successors of p's last op, when p -> b
 
 
-def edge(p, b):
-    """p -> b: b is a successor of the last op of p."""
+def edge(p, b, upto=None):
+    """p -> b: b is among the (first `upto`) successors of the last op of p.  SUCCW(p, b) is the LEAST position of b among them (axiom least_witness)."""
     w = SUCCW(p, b)
-    return z3.And(LASTOP(p) != 0, w >= 0, w < ONSUCC(LASTOP(p)), OSUCC(LASTOP(p))[w] == b)
+    n = ONSUCC(LASTOP(p))
+    return z3.And(LASTOP(p) != 0, w >= 0, w < n, w < (n if upto is None else upto), OSUCC(LASTOP(p))[w] == b)
+
+
+def least_witness():
+    p, m = z3.Ints("lw!p lw!m")
+    s_ = OSUCC(LASTOP(p))[m]
+    return forall([p, m], z3.Implies(z3.And(LASTOP(p) != 0, m >= 0, m < ONSUCC(LASTOP(p))),
+                                     z3.And(SUCCW(p, s_) >= 0, SUCCW(p, s_) <= m, OSUCC(LASTOP(p))[SUCCW(p, s_)] == s_)), patterns=[OSUCC(LASTOP(p))[m]])
 
 
 class DomInit(Spec):
@@ -341,6 +352,7 @@ class DomInit(Spec):
 
     prop, file, qualname = PROP, DOM, "DominanceInfo.__init__"
     modifies = ["dict#dom", "dict#val", "_dominance"]
+    timeout_factor = 4
     loop_alloc = True  # objects created in one iteration of a cut loop are distinct from those created in other iterations
 
     INTER_TEXT = "set[Block].intersection(*(self._dominance[p] for p in pred[b]))"
@@ -399,7 +411,8 @@ class DomInit(Spec):
                     forall([b], z3.Implies(INR(r, b), z3.And(IDXR(r, b) >= 0, IDXR(r, b) < RNB(r), RBLOCKS(r)[IDXR(r, b)] == b)), patterns=[INR(r, b)]))),
                 A("successors-of-a-block-of-the-region-are-blocks-of-the-region", forall([b, k], z3.Implies(
                     z3.And(INR(r, b), LASTOP(b) != 0, k >= 0, k < ONSUCC(LASTOP(b))), INR(r, OSUCC(LASTOP(b))[k])))),
-                A("successor-lists-have-lengths", forall([p], ONSUCC(p) >= 0))]
+                A("successor-lists-have-lengths", forall([p], ONSUCC(p) >= 0)),
+                AX("successor_index_witness(p, b) is the least position of b among the successors of p (definition of the choice function)", least_witness())]
 
     # ---- vocabulary of the invariants
     @staticmethod
@@ -408,10 +421,10 @@ class DomInit(Spec):
 
     def pred_is(self, st, pred, r, upto, inner=None):
         """pred[b] = { p among the first `upto` blocks (plus, for block #upto, its first `inner` successors) : p -> b }, for every block b of the region."""
-        b, p, m = z3.Ints("pi!b pi!p pi!m")
+        b, p = z3.Ints("pi!b pi!p")
         blk = lambda i: RBLOCKS(r)[i]
-        full = z3.And(INR(r, p), IDXR(r, p) < upto, LASTOP(p) != 0, z3.Exists([m], z3.And(m >= 0, m < ONSUCC(LASTOP(p)), OSUCC(LASTOP(p))[m] == b)))
-        part = z3.BoolVal(False) if inner is None else z3.And(p == blk(upto), z3.Exists([m], z3.And(m >= 0, m < inner, OSUCC(LASTOP(p))[m] == b)))
+        full = z3.And(INR(r, p), IDXR(r, p) < upto, edge(p, b))
+        part = z3.BoolVal(False) if inner is None else z3.And(p == blk(upto), edge(p, b, inner))
         return forall([b, p], z3.Implies(INR(r, b), self.pset(st, pred, b)[p] == z3.Or(full, part)))
 
     def pred_shape(self, st, pred, r, upto):
@@ -451,7 +464,9 @@ class DomInit(Spec):
         b, x = z3.Ints("iv!b iv!x")
         blk = lambda i: RBLOCKS(r)[i]
         n_all = RNB(r)
-        frame = [A("self-table-object-unchanged", st.sel("_dominance", me) == entry.sel("_dominance", me))]
+        t_ = st.sel("_dominance", me)
+        frame = [A("self-table-object-unchanged", z3.And(t_ == entry.sel("_dominance", me), t_ != 0, st.alloc()[t_], t_ != pred, pred != 0, st.alloc()[pred],
+                                                          forall([b], z3.Implies(st.dict_has(pred, b), st.dict_val(pred, b) != t_))))]
         if n == 0:
             # for b in region.blocks: pred[b] = set()
             return frame + [A("pred-has-an-empty-set-for-each-processed-block", z3.And(self.pred_shape(st, pred, r, k), forall([b, x], z3.Implies(
@@ -473,21 +488,25 @@ class DomInit(Spec):
             return frame + pred_done + [A("table-shape", self.table_shape(st, me, pred, r, k)), entry_eq]
         changed = env["changed"]
         ch = changed.z if isinstance(changed, VBool) else z3.BoolVal(bool(changed))
-        all_eq = lambda upto: forall([b], z3.Implies(z3.And(INR(r, b), IDXR(r, b) >= 1, IDXR(r, b) <= upto), self.equation(st, me, pred, r, b)))
+        all_eq = lambda s_, upto: forall([b], z3.Implies(z3.And(INR(r, b), IDXR(r, b) >= 1, IDXR(r, b) <= upto), self.equation(s_, me, pred, r, b)))
         shape = A("table-shape", self.table_shape(st, me, pred, r, n_all - 1))
+        p_ = z3.Int("iv!p")
+        preds_in_region = Clause("predecessors-are-blocks-of-the-region", forall([b, p_], z3.Implies(z3.And(INR(r, b), self.pset(st, pred, b)[p_]), INR(r, p_))), "lemma")
         if n == 4:
             # while changed: ...
-            return frame + pred_done + [shape, entry_eq, A("no-change-in-the-last-sweep-means-every-equation-holds", z3.Implies(z3.Not(ch), all_eq(n_all - 1)))]
-        # n == 5: for b in blocks (one sweep); `entry` is the state at the start of the sweep
-        same_content = forall([b, x], z3.Implies(INR(r, b), self.doms(st, me, b)[x] == self.doms(entry, me, b)[x]))
-        return frame + pred_done + [shape, entry_eq,
-                                    A("while-nothing-changed-the-sets-are-as-at-the-start-of-the-sweep-and-visited-blocks-satisfy-their-equation",
-                                      z3.Implies(z3.Not(ch), z3.And(same_content, all_eq(k))))]
+            return frame + pred_done + [shape, entry_eq, preds_in_region,
+                                        A("no-change-in-the-last-sweep-means-every-equation-holds", z3.Implies(z3.Not(ch), all_eq(st, n_all - 1)))]
+        # n == 5: for b in blocks (one sweep); `entry` is the state at the start of the sweep.  While nothing has changed every set still has the content it
+        # had at the start of the sweep, so the equations can be stated over that (fixed) content: visited blocks keep satisfying them for free.
+        same_content = forall([b], z3.Implies(INR(r, b), self.doms(st, me, b) == self.doms(entry, me, b)))
+        return frame + pred_done + [shape, entry_eq, preds_in_region,
+                                    Clause("while-nothing-changed-every-set-has-the-content-it-had-at-the-start-of-the-sweep", z3.Implies(z3.Not(ch), same_content), "lemma"),
+                                    A("while-nothing-changed-the-blocks-visited-in-this-sweep-satisfy-their-equation-over-that-content", z3.Implies(z3.Not(ch), all_eq(entry, k)))]
 
     def post(self, old, st, a, res):
         me, r = a["_me"], a["_r"]
         b, x = z3.Ints("po!b po!x")
-        pred_rel = lambda p_, b_: z3.And(INR(r, p_), LASTOP(p_) != 0, z3.Exists([x], z3.And(x >= 0, x < ONSUCC(LASTOP(p_)), OSUCC(LASTOP(p_))[x] == b_)))
+        pred_rel = lambda p_, b_: z3.And(INR(r, p_), edge(p_, b_))
         p_ = z3.Int("po!p")
         y = z3.Int("po!y")
         has_pred = lambda b_: z3.Exists([p_], pred_rel(p_, b_))
@@ -507,15 +526,18 @@ NATIVE = [("all-small-cfgs", N24.explore)]
 
 
 def make_specs(tier):
-    s = [Reader("dominates"), Reader("strictly_dominates"), StrictBlock(), PostOrder("__init__"), PostOrder("__next__")]
+    s = [Reader("dominates"), Reader("strictly_dominates"), StrictBlock(), PostOrder("__init__"), PostOrder("__next__"), DomInit()]
     for x in s:
         x.instances = [{}]
     return s
 
 
 ASSUMPTIONS = [
-    "DominanceInfo.__init__ (iterative set-of-sets fixpoint) is NOT under a discharged contract: the dominance clauses are decided by the bounded stand-in only "
-    "(exhaustive for <= 3 (quick) / 4 (thorough) blocks, random to 8 blocks)",
+    "DominanceInfo.__init__ is under contract for the fixpoint EQUATIONS at exit (any number of blocks); that the iteration reaches the GREATEST solution (= dominators), and "
+    "termination, are not proved: the dominance clauses as such are decided by the bounded stand-in (exhaustive for <= 3 (quick) / 4 (thorough) blocks, random to 8 blocks)",
+    "in that unit: `set[Block].intersection(*(self._dominance[p] for p in pred[b]))` is a trusted model bound to its exact text (a new set characterised pointwise); "
+    "successor_index_witness is a choice function (least position) axiomatised by its definition; objects created in different iterations of a cut loop are distinct "
+    "(allocation map only grows)",
     "PostOrderIterator: dict.fromkeys, the filtered list comprehension and the reversed generator are TRUSTED models (duplicate-free list with the same elements / exactly the unseen successors / "
     "reversed pairs) bound to their exact source text; `yielded` is ghost history (the set of results of earlier __next__ calls); termination of __next__ is not proved",
     "block successors are read from the last op of each block when it is a terminator",
